@@ -164,6 +164,8 @@ func (ft *ftrans) assignedIn(list []ast.Stmt, e *env) []target {
 				}
 			case *ast.BlockStmt:
 				walk(s.List)
+			case *ast.ForStmt:
+				walk(s.Body.List)
 			case *ast.IfStmt:
 				walk(s.Body.List)
 				B, _ := elseList(s)
